@@ -162,18 +162,36 @@ def refill (P : Params) (src : Content) (s : DState) : DState :=
     if n < P.bs then { s with lastRun := true, shortSize := n } else s
   else s
 
+/-- Rolling update of `β1` (`β1 = (β1 - αPop + αPush) % _M`). -/
+def rollβ1 (β1 αPop αPush : UInt32) : UInt32 := (β1 - αPop + αPush) % M
+/-- Rolling update of `β2` (`β2 = (β2 - uint32(sum.head-sum.tail)*αPop + β1) % _M`), `wl` the window length. -/
+def rollβ2 (β1 β2 αPop wl : UInt32) : UInt32 := (β2 - wl * αPop + β1) % M
+/-- `β = β1 + _M*β2`. -/
+def rollβ (β1 β2 : UInt32) : UInt32 := β1 + M * β2
+
 /-- Part 2: weak hash of the window (rolling or from scratch); returns the state and `skip`. -/
 def hashStep (src : Content) (s : DState) (sumHead : Nat) : DState × Bool :=
   if s.rolling then
     let βold := s.β
     let αPush := (src.get (s.base + sumHead - 1)).toUInt32
-    let β1 := (s.β1 - s.αPop + αPush) % M
-    let β2 := (s.β2 - (sumHead - s.sumTail).toUInt32 * s.αPop + β1) % M
-    let β := β1 + M * β2
+    let β1 := rollβ1 s.β1 s.αPop αPush
+    let β2 := rollβ2 β1 s.β2 s.αPop (sumHead - s.sumTail).toUInt32
+    let β := rollβ β1 β2
     ({ s with β := β, β1 := β1, β2 := β2 }, β == βold)
   else
     let (β, β1, β2) := betaHash src (s.base + s.sumTail) (sumHead - s.sumTail)
     ({ s with β := β, β1 := β1, β2 := β2, rolling := true }, false)
+
+/-- Trailing data of the last run, split so that no op exceeds `maxDataOp`
+    (`for validTo-data.tail > MaxDataOp { ... }` followed by the final data op). -/
+def emitTail (P : Params) : Nat → DState → DState
+  | 0, s => enqueue s (.data (s.base + s.dataTail) (s.validTo - s.dataTail))
+  | fuel + 1, s =>
+    if s.validTo - s.dataTail > P.maxDataOp then
+      let s := enqueue s (.data (s.base + s.dataTail) P.maxDataOp)
+      emitTail P fuel { s with dataTail := s.dataTail + P.maxDataOp }
+    else
+      enqueue s (.data (s.base + s.dataTail) (s.validTo - s.dataTail))
 
 /-- Part 3: emit operations and advance. -/
 def advance (P : Params) (src : Content) (s : DState) (found : Option Entry) : DState :=
@@ -189,7 +207,7 @@ def advance (P : Params) (src : Content) (s : DState) (found : Option Entry) : D
              dataHead := s.sumTail + P.bs, dataTail := s.sumTail + P.bs }
   | none =>
     if s.lastRun then
-      enqueue s (.data (s.base + s.dataTail) (s.validTo - s.dataTail))
+      emitTail P s.validTo s
     else
       let s := if s.rolling then { s with αPop := (src.get (s.base + s.sumTail)).toUInt32 } else s
       { s with sumTail := s.sumTail + 1, dataHead := s.sumTail + 1 }
